@@ -56,8 +56,14 @@ Matrix<4,4, double> epsic::composite::get_covariance ()
   unsigned A_sample_size = A_fraction * sample_size;
   unsigned B_sample_size = sample_size - A_sample_size;
 
-  Matrix<4,4,double> C_A = sample::get_covariance (A, A_sample_size);
-  Matrix<4,4,double> C_B = sample::get_covariance (B, B_sample_size);
+  // a mode that contributes no instances contributes no covariance
+  Matrix<4,4,double> C_A (0);
+  if (A_sample_size > 0)
+    C_A = sample::get_covariance (A, A_sample_size);
+
+  Matrix<4,4,double> C_B (0);
+  if (B_sample_size > 0)
+    C_B = sample::get_covariance (B, B_sample_size);
 
   // A_fraction * sample_size may not be an integer number of instances
   double f_A = A_sample_size / double(sample_size);
